@@ -167,10 +167,21 @@ pub(crate) mod verif_sc {
     }
 
     /// chain with NP prepare, NC check, NS stat slots, each added through the real add_* with a symbolic order value
-    fn build<const NP: usize, const NC: usize, const NS: usize>() -> (SlotChain, [u8; NC], [u64; NC]) {
+    /// symbolic order value; with `tagged` the low 3 bits carry the slot id, so the harness can read the execution order
+    /// from `order()` alone (order values are then distinct across slots; the free/equal case is sc_add_keeps_sorted_*)
+    fn any_order(tagged: bool, id: u8) -> u32 {
+        let o: u32 = kani::any();
+        if tagged { (o & !7u32) | id as u32 } else { o }
+    }
+    fn new_ctx() -> Arc<RwLock<EntryContext>> {
+        let c = Arc::new(RwLock::new(crate::core::base::context::verif_ctx::mk_ctx("r", false, 1, 0, None)));
+        std::mem::forget(c.clone()); // never dropped (see context.rs harness)
+        c
+    }
+    fn build<const NP: usize, const NC: usize, const NS: usize>(tagged: bool) -> (SlotChain, [u8; NC], [u64; NC]) {
         let mut sc = SlotChain::new();
         for i in 0..NP {
-            sc.add_stat_prepare_slot(Arc::new(RecPrep { order: kani::any(), id: i as u8 + 1 }));
+            sc.add_stat_prepare_slot(Arc::new(RecPrep { order: any_order(tagged, i as u8 + 1), id: i as u8 + 1 }));
         }
         let mut verdicts = [0u8; NC];
         let mut waits = [0u64; NC];
@@ -178,17 +189,17 @@ pub(crate) mod verif_sc {
             verdicts[i] = kani::any();
             kani::assume(verdicts[i] <= 2);
             waits[i] = kani::any();
-            sc.add_rule_check_slot(Arc::new(RecCheck { order: kani::any(), id: i as u8 + 1, verdict: verdicts[i], wait: waits[i] }));
+            sc.add_rule_check_slot(Arc::new(RecCheck { order: any_order(tagged, i as u8 + 1), id: i as u8 + 1, verdict: verdicts[i], wait: waits[i] }));
         }
         for i in 0..NS {
-            sc.add_stat_slot(Arc::new(RecStat { order: kani::any(), id: i as u8 + 1 }));
+            sc.add_stat_slot(Arc::new(RecStat { order: any_order(tagged, i as u8 + 1), id: i as u8 + 1 }));
         }
         (sc, verdicts, waits)
     }
 
     // add_*: after every insertion the vector is ascending by order() and holds exactly the slots added (3 per kind)
     sc_harness!(sc_add_keeps_sorted_permutation_3, 6, {
-        let (sc, _, _) = build::<3, 3, 3>();
+        let (sc, _, _) = build::<3, 3, 3>(false);
         assert!(sc.stat_pres.len() == 3 && sc.rule_checks.len() == 3 && sc.stats.len() == 3);
         for i in 0..2 {
             assert!(sc.stat_pres[i].order() <= sc.stat_pres[i + 1].order());
@@ -197,8 +208,7 @@ pub(crate) mod verif_sc {
         }
         // permutation: run the chain once and look at which ids were called
         log_reset();
-        let ctx = Arc::new(RwLock::new(EntryContext::new()));
-        let _ = sc.entry(ctx);
+        let _ = sc.entry(new_ctx());
         let mut seen_p = 0u8;
         let mut seen_c = 0u8;
         let mut seen_s = 0u8;
@@ -224,9 +234,9 @@ pub(crate) mod verif_sc {
     // blocked <=> some check blocked; the error delivered is one produced by a slot that blocked; each stat slot gets
     // exactly one notification (pass iff not blocked, else blocked with that error); ctx.result() == returned value
     fn check_entry<const NP: usize, const NC: usize, const NS: usize>() {
-        let (sc, verdicts, _waits) = build::<NP, NC, NS>();
+        let (sc, verdicts, _waits) = build::<NP, NC, NS>(true);
         log_reset();
-        let ctx = Arc::new(RwLock::new(EntryContext::new()));
+        let ctx = new_ctx();
         let r = sc.entry(ctx.clone());
         let any_blocked = {
             let mut b = false;
@@ -237,16 +247,13 @@ pub(crate) mod verif_sc {
         };
         let mut exp = (0u128, 0u32);
         for i in 0..NP {
-            let s = sc.stat_pres[i].clone().as_any_arc().downcast::<RecPrep>().ok().unwrap();
-            expect(&mut exp, 1, s.id);
+            expect(&mut exp, 1, (sc.stat_pres[i].order() & 7) as u8);
         }
         for i in 0..NC {
-            let s = sc.rule_checks[i].clone().as_any_arc().downcast::<RecCheck>().ok().unwrap();
-            expect(&mut exp, 2, s.id);
+            expect(&mut exp, 2, (sc.rule_checks[i].order() & 7) as u8);
         }
         for i in 0..NS {
-            let s = sc.stats[i].clone().as_any_arc().downcast::<RecStat>().ok().unwrap();
-            expect(&mut exp, if any_blocked { 4 } else { 3 }, s.id);
+            expect(&mut exp, if any_blocked { 4 } else { 3 }, (sc.stats[i].order() & 7) as u8);
         }
         unsafe {
             assert!(LOG_LEN == exp.1);
@@ -266,8 +273,11 @@ pub(crate) mod verif_sc {
         } else {
             assert!(r.is_pass()); // a Wait verdict does not block and is not turned into the chain's result
         }
-        let g = ctx.read().unwrap();
-        assert!(g.result().is_blocked() == any_blocked && g.result().is_pass() == !any_blocked);
+        {
+            let g = ctx.read().unwrap();
+            assert!(g.result().is_blocked() == any_blocked && g.result().is_pass() == !any_blocked);
+        }
+        std::mem::forget(r);
         kani::cover!(any_blocked && NC >= 2 && verdicts[0] == 1 && verdicts[NC - 1] == 0); // a later Pass must not clear the block
         kani::cover!(!any_blocked && verdicts[0] == 2);
     }
@@ -277,8 +287,8 @@ pub(crate) mod verif_sc {
 
     // exit: on_completed once per stat slot, in vector order, iff the context has an entry and is not blocked
     sc_harness!(sc_exit_2, 5, {
-        let (sc, _, _) = build::<0, 0, 2>();
-        let mut c = EntryContext::new();
+        let (sc, _, _) = build::<0, 0, 2>(true);
+        let mut c = crate::core::base::context::verif_ctx::mk_ctx("r", false, 1, 0, None);
         let has_entry: bool = kani::any();
         let blocked: bool = kani::any();
         if has_entry {
@@ -289,13 +299,13 @@ pub(crate) mod verif_sc {
             c.set_result(TokenResult::new_blocked(BlockType::Other(9)));
         }
         let ctx = Arc::new(RwLock::new(c));
+        std::mem::forget(ctx.clone());
         log_reset();
         sc.exit(ctx);
         let mut exp = (0u128, 0u32);
         if has_entry && !blocked {
             for i in 0..2 {
-                let s = sc.stats[i].clone().as_any_arc().downcast::<RecStat>().ok().unwrap();
-                expect(&mut exp, 5, s.id);
+                expect(&mut exp, 5, (sc.stats[i].order() & 7) as u8);
             }
         }
         unsafe {
